@@ -112,10 +112,18 @@ def apply(tree, idx, kind):
 
 
 def sh(cmd, cwd=None, env=None, timeout=900):
+    """Run in its own process group so that a timeout takes the whole tree (pool workers of ./check) with it."""
+    import signal
+    p = subprocess.Popen(cmd, shell=True, cwd=cwd, env=env, stdout=subprocess.PIPE, stderr=subprocess.STDOUT, text=True, start_new_session=True)
     try:
-        p = subprocess.run(cmd, shell=True, cwd=cwd, env=env, capture_output=True, text=True, timeout=timeout)
-        return p.returncode, p.stdout + p.stderr
+        out, _ = p.communicate(timeout=timeout)
+        return p.returncode, out
     except subprocess.TimeoutExpired:
+        try:
+            os.killpg(p.pid, signal.SIGKILL)
+        except ProcessLookupError:
+            pass
+        p.wait()
         return 124, "timeout"
 
 
@@ -140,7 +148,7 @@ def run_mutant(rel, src_text, m_id, desc, line, props, jobs):
         env2 = dict(os.environ, PYVC_REPO=tmp, PYVC_OUT=outdir, PYVC_JOBS=str(jobs))
         exits, first = {}, None
         for p in props:
-            rc, out = sh(f"./check {p}", cwd=VERIF, env=env2, timeout=1200)
+            rc, out = sh(f"./check {p}", cwd=VERIF, env=env2, timeout=600)
             exits[p] = rc
             if rc == 1 and first is None:
                 for l in out.splitlines():
